@@ -13,12 +13,12 @@ ENUM = 'exhaustive bounded input enumeration of the real codec against an indepe
 CHECKS = {
  'C01': ('2 C01', ENUM, 'Complete enumeration of the bounded input grid (all 65536 16-bit values, all remaining lengths near every boundary and a dense range, every Unicode scalar value as a 1-char string, every length class, every flag combination of all 14 packets) through the real encode/decode; decoded fields must equal the encoded ones and encoding twice gives equal bytes.', 'Bounded grid stands for the unbounded value space; strings are covered per code point and per length class, not every string.'),
  'C02': ('2 C02', ENUM + ' + BFS of live sessions comparing every transport.write with the reference encoding', 'Same grid as C01 for both protocol levels compared byte-for-byte with a reference encoder written from the OASIS text; broker packets from the reference encoder must decode to the reference field values; unrepresentable inputs must raise ValueError/TypeError; plus a bounded exploration of live sessions where every write is compared with the reference encoding computed from the API arguments.', 'The reference codec (mc/refcodec.py, self-tested against the byte examples printed in the specification) is trusted.'),
- 'C03': ('3 C03', 'exhaustive enumeration of all 2^(n-1) chunk compositions by dynamic programming over cut positions on the real dataReceived, plus brute force for short streams', 'For streams containing every broker packet type, every composition of the byte stream into chunks is covered: S_k = set of distinct (canonical state, observation log) after delivering the first k bytes in any chunking; all members must be observation-prefixes of the one-packet-per-chunk run. Short streams are additionally brute-forced over all compositions; long streams (3/4-byte remaining length) over all 1-cut and boundary-region 2/3-cut placements.', 'Merging in the DP relies on the full generic state dump + observation log being the key.'),
+ 'C03': ('3 C03', 'exhaustive enumeration of all 2^(n-1) chunk compositions by dynamic programming over cut positions on the real dataReceived, plus brute force for short streams', 'All 2^(n-1) compositions of streams holding every broker packet type are covered by dynamic programming over cut positions on the real dataReceived (S_j = distinct (canonical state, action list) after bytes[0:j) in any chunking; every member must be an action-prefix of the one-packet-per-chunk run, which is itself compared with an absolute reference model of the receive side); all compositions of six short streams by brute force; 1/2/3-cut placements and byte-at-a-time header delivery for 3- and 4-byte remaining lengths; cross-connection cases (connection lost mid-packet, partial packet while another address receives).', 'Merging in the DP relies on the full generic state dump + observation log being the key.'),
  'C04': ('3 C04', BFS + ' + full sweep of 256 return codes', 'All 256 CONNACK return codes x session-present x 3 profiles x keepalive {0,k} x 2 versions x 2 transport modes as single-path executions, plus BFS over connect/CONNACK/duplicate CONNACK/timeout/loss/rebuild orderings with a monitor demanding exactly one CONNECT, exactly one firing of the Deferred with the prescribed outcome, idle after loss and exactly one onDisconnection per loss.', 'Bounded depth; virtual reactor and transport stand for Twisted.'),
- 'C05': ('3 C05', BFS, 'All interleavings (within budgets) of publishes at mixed QoS, fitting acks to every outstanding, completed, held-back or never-issued id, early PUBCOMP, timer expiries and window changes; monitor: QoS0 already succeeded, QoS>0 success only in the step delivering the completing ack for a transmitted message, value == msgId == wire id, no failure without loss, each Deferred fires exactly once by the end of the closing phase.', 'Windows 1..3 stand for 1..16; random walks of the quantifier are replaced by exhaustive bounded search.'),
+ 'C05': ('3 C05', BFS, 'All interleavings (within budgets) of publishes at mixed QoS, fitting acks to every outstanding, completed, held-back or never-issued id, early PUBCOMP, timer expiries, window changes, publishing while connecting, re-entrant publish from a callback, and a loss scenario; monitor: QoS0 already succeeded, QoS>0 success only in the step delivering the completing ack for a transmitted message and that ack does complete it, value == msgId == wire id, duplicate/unknown acks leave the canonical state unchanged, no failure without loss, each Deferred fires exactly once by the end of the closing phase.', 'Windows 1..3 stand for 1..16; random walks of the quantifier are replaced by exhaustive bounded search.'),
  'C06': ('3 C06', BFS, 'All sequences (within budgets) of inbound PUBLISH (QoS, DUP, RETAIN, ids, payload kinds) and PUBREL incl. repeats, unknown ids and loss+reconnect (clean/persistent); a reference receiver demands exact delivery fields, QoS2 exactly-once per exchange, one PUBACK/PUBREC/PUBCOMP per prompt and nothing unprompted.', 'Well-behaved-or-repeating broker: after a clean reconnect it does not release ids of the discarded session.'),
  'C07': ('3 C07', BFS, 'All interleavings (within budgets) of subscribe/unsubscribe in all argument shapes, window changes, SUBACK/UNSUBACK to outstanding/completed/foreign ids with a menu of granted lists, expiries, loss+reconnect in both session modes, closed by a broker that answers everything; monitor per statement clause (one packet per call, exact topics, fresh id, single firing with the granted pairs/id, window error iff window full, nothing pending at the end).', 'Windows 1..3.'),
- 'C08': ('3 C08', BFS, 'For each retransmittable kind x protocol version x timeout/bandwidth/factor/payload configuration: up to k consecutive expiries interleaved with other traffic; monitor per in-flight packet: copy on every expiry of its timer, identical content, DUP rules per version, copies only on own expiry or session resumption, gap >= initial timeout, PUBLISH gaps (jitter subtracted exactly) non-decreasing, no exception from a timer.', 'Configuration menu instead of all 1..1024 timeouts.'),
+ 'C08': ('3 C08', BFS, 'For each retransmittable kind x protocol version x timeout/bandwidth/factor/payload (2 B, 1 kB, 20 kB) configuration: up to k consecutive expiries interleaved with acks (also of the wrong type), jitter changes, window changes with a held-back message, persistent reconnect; monitor per in-flight packet: a copy on every expiry of its timer, identical content, DUP rules per version, copies only on own expiry or session resumption, exactly one retry timer while unacknowledged on a live connection, gap >= initial timeout, PUBLISH gaps (jitter subtracted exactly) non-decreasing, no exception from a timer.', 'Configuration menu instead of all 1..1024 timeouts.'),
  'C09': ('3 C09', BFS, 'QoS 2 publishes with PUBREC/PUBCOMP in/out of order/duplicated, expiries of both timers, loss + persistent reconnect at every point; monitor per id: PUBREL only after PUBREC, no PUBLISH after first PUBREL, completion only on PUBCOMP or session discard.', 'Bounded budgets.'),
  'C10': ('3 C10', BFS, 'Windows 1..3 changed at any time, up to 3-5 publishes of any QoS mix, acks in any order, publishing while connecting, persistent reconnects; after every step: in-flight <= window at each first transmission, first transmissions in publish() order exactly once, valid publish never refused, nothing stranded while connected with no exchange outstanding.', 'Windows 1..3 stand for 1..16.'),
  'C11': ('3 C11', BFS, 'Clean-session histories with requests in every stage cut at every prefix by every loss kind (broker close, network, abort after corrupt packet, keepalive timeout, CONNACK timeout, disconnect) in both transport modes, then rebuild + further traffic; every pending Deferred fails exactly once with the loss reason in the loss step; the next connection carries only its own requests.', 'Bounded budgets.'),
@@ -26,8 +26,8 @@ CHECKS = {
  'C13': ('3 C13', BFS + ' with a clock drain from every visited state', 'Union alphabet in all profiles; after every step: each retry alarm belongs to an unsettled request of a live connection, one per request, no timer when idle-connected with keepalive off, no write after reported loss; then the clock is drained for 5000 virtual seconds from every state: nothing is written for settled requests and no timer of a lost connection remains.', 'Drain uses default tie order.'),
  'C14': ('3 C14', BFS + ' with one-step probes of every operation and packet type in every reached state', 'Every (profile x protocol phase) is reached by exploration; in each state every API operation and every broker packet type is probed on a fresh replay; disallowed ones must fail with MQTTStateError (raise for disconnect), write nothing and leave the canonical state unchanged; allowed ones must be honoured.', 'connect() on an idle-again protocol may be honoured or refused.'),
  'C15': ('3 C15', BFS + ' and a sweep of keepalive values through a fixed script', 'Keepalive k in {0,2,3}: PINGRESP in time / exactly at k in both tie orders / late / never / twice / unsolicited, other traffic, loss and rebuild, several periods deep; monitor: PINGREQ spacing <= k, abort iff k elapsed unanswered, never closes when answered, nothing for k=0, no keepalive activity after loss.', 'All 65535 values only through one script.'),
- 'C16': ('3 C16', 'exhaustive injection of a bounded set of byte strings into every base state of the real client', 'All byte strings up to length 4/5 over a 16-symbol alphabet, every first byte x short bodies, every single-byte mutation/truncation/extension of every valid broker packet, injected in every profile x phase with requests pending; no exception escapes dataReceived/connectionLost/timers, strongest reaction abort, no onPublish / Deferred success that a structurally well-formed packet in the input did not justify, all requests settled afterwards.', 'Structural notion of well-formed.'),
- 'C17': ('3 C17', BFS, 'Identifier monitor on publish/subscribe/unsubscribe explorations started with the counter at 65530..65535 and unfinished requests of every kind/stage, plus one deterministic 70000-request execution that wraps on its own with an old request outstanding.', 'Bounded budgets.'),
+ 'C16': ('3 C16', 'exhaustive injection of a bounded set of byte strings into every base state of the real client', 'Exhaustive injection (about 5*10^5 inputs in the quick tier, each into a freshly replayed base state): all byte strings up to length 3/4/5 over two 16-symbol alphabets, every first byte x short bodies, every single-byte mutation/truncation/extension of every valid broker packet, invalid UTF-8, all 512 CONNACKs, two- and three-frame sequences, into 3 profiles x 2 transport modes x 6 base states (fresh, connecting, connected idle, busy with one pending request of each kind and keepalive ping outstanding, protocol 3.1 persistent, connecting with a carried-over session); no exception escapes dataReceived/connectionLost/timers, no onPublish / Deferred success / unexpected write that a structurally well-formed frame of the input does not justify, every request settled after the connection ends.', 'Structural notion of well-formed.'),
+ 'C17': ('3 C17', BFS, 'Identifier monitor on request/ack explorations started with the counter placed at 65530..65535 (or just below a held-back identifier) after one unfinished request per stage exists (awaiting PUBACK, PUBREC, PUBCOMP, SUBACK, UNSUBACK, held back, preserved by a persistent session, on another address), plus one deterministic 70000-request execution that wraps on its own with an old request outstanding.', 'Bounded budgets.'),
  'C18': ('3 C18', BFS, 'Strict reference parse of the concatenated writes of every connection in all profiles and both transport modes, including API calls and expiries between close request and loss report: complete client packets only, CONNECT first and once, DISCONNECT only from disconnect() with close request and last, nothing after reported loss.', 'Strict decoder per connection protocol level.'),
  'C19': ('3 C19', BFS + ' with a differential two-factory oracle', 'Product exploration over two addresses on one factory; every history is also executed with one factory per address; per-address observation logs (writes with ids renamed by first use, Deferred outcomes, callbacks, timers) must coincide after every step, and ids never collide on the shared factory.', 'Bounded budgets.'),
  'C20': ('3 C20', 'exhaustive enumeration of the argument boundary grid in every base state of the real client', 'Boundary grid of every argument of every API entry point in every state/profile that allows the call: invalid values must raise / fail with ValueError or TypeError and leave state, transport, timers and queues unchanged; valid ones must be accepted.', 'Id counter not compared.'),
